@@ -86,6 +86,12 @@ def fixed_histories():
         # a registry duration changes after an observation
         [['add', L('Wait', [0], dur=['reg', 'k0'], ch='ALL')], ['add', L('Rx180', [0])], ['add', L('Wait', [0], dur=['fixed', 3.0], ch='ALL')],
          ['obs', 'listing'], ['setreg', 'k0', 5.0], ['obs', 'listing'], ['obs', 'duration']],
+        # an unrolled repetition whose body starts with a relation-free sub-circuit and ends in two parallel branches; a duration
+        # change after a listing flips which branch ends last (the handed-down relation must keep referring to the GROUP)
+        [['sub', 2, [{'t': 'sub', 'reps': 1, 'body': [L('Rx180', [0])]}, L('Wait', [1], dur=['reg', 'k0'], ch='ALL')]], ['mods'],
+         ['obs', 'listing'], ['setreg', 'k0', 5.0], ['obs', 'listing'], ['obs', 'duration']],
+        [['sub', 2, [{'t': 'sub', 'reps': 1, 'body': [L('Rx180', [0])]}, L('DispersiveMeasure', [1], tag='')]], ['mods'],
+         ['global', dict(env, READOUT=0.5)], ['obs', 'listing'], ['unglobal'], ['obs', 'listing']],
         # a registry key that was NEVER set (the registry answers its default 0) is assigned for the first time after an observation
         [['add', L('Wait', [0], dur=['reg', 'k2'], ch='ALL')], ['add', L('Wait', [0], dur=['fixed', 1.0], ch='ALL')],
          ['add', L('Wait', [1], dur=['fixed', 1.0], ch='ALL', rel=['F', 1])],
@@ -107,7 +113,7 @@ def fixed_histories():
     ]
     out = []
     for i, h in enumerate(hs):
-        out.append({'cmds': h, 'env': dict(env, MICROWAVE=5.0) if i in (7, 8) else env, 'reg': reg})
+        out.append({'cmds': h, 'env': dict(env, MICROWAVE=5.0) if i in (9, 10) else env, 'reg': reg})
     return out
 
 
